@@ -48,7 +48,8 @@ def run_lane(ctx, n_cases, which):
         A, L = c["A"], len(c["x"])
         fx = o["fx"]
         if not close(r["fx"], fx):
-            raise core.Machinery("network built by the driver differs from the specified network (case %d: %r vs %r)" % (c["id"], r["fx"], fx))
+            ctx.suspect("network built by the driver differs from the specified network (case %d: %r vs %r)" % (c["id"], r["fx"], fx))
+            continue
         if r["hooks"]:
             ctx.violation("M3", "hooks left on the model after a successful call", dict(mode="case", case=c), cls="hooks")
         nontriv = any(l["k"] in ("act", "maxpool") for l in c["layers"])
